@@ -186,7 +186,7 @@ Definition ctx_rel (c : cfg) (now uns : Z) (x : ctxo) (m : mctx) : Prop :=
     (m_cancel m = true \/ m_d m - thr c < uns - m_U0 m \/ wall_bound c m <= now)
   end.
 
-Definition R (c : cfg) (s : state) (mo : mon) : Prop :=
+Definition Rc (c : cfg) (s : state) (mo : mon) : Prop :=
   acct s (mo_tl mo) /\ Forall2 (ctx_rel c (s_now s) (tl_uns (mo_tl mo))) (s_ctxs s) (mo_ctxs mo).
 
 Lemma ctx_rel_mono c now now' uns uns' x m :
@@ -204,7 +204,7 @@ Proof.
     + right. right. lia.
 Qed.
 
-Lemma R_init c : R c init mon0.
+Lemma Rc_init c : Rc c init mon0.
 Proof. split; [exact acct_init|constructor]. Qed.
 
 (* total_at against the true unsuspended time *)
@@ -260,27 +260,27 @@ Qed.
 
 Definition step_good c s mo e :=
   p_step c mo e (snd (step c s e)) = "" /\
-  R c (fst (step c s e)) (mon_step c mo e (snd (step c s e))).
+  Rc c (fst (step c s e)) (mon_step c mo e (snd (step c s e))).
 
 Lemma mon_step_target c mo e o id m :
   target e = Some id -> nth_error (mo_ctxs mo) id = Some m ->
   mon_step c mo e o =
-  mkMon (mo_tl mo) (set_nth id (note_out (note_event c (mo_tl mo) m e) o) (mo_ctxs mo)).
+  mkMon (mo_tl mo) (set_nth id (note_out (note_event c (mo_tl mo) m e) o) (mo_ctxs mo)) (mo_tmrs mo).
 Proof.
-  destruct e; cbn [target]; try discriminate; intros [= ->] Hm; unfold mon_step;
-    cbn [target tl_step]; rewrite Hm; destruct mo; reflexivity.
+  destruct e; cbn [target]; try discriminate; intros [= ->] Hm; unfold mon_step, ctxs_step, tmrs_step;
+    cbn [target ttarget tl_step]; rewrite Hm; destruct mo; reflexivity.
 Qed.
 
 Lemma mon_step_target_none c mo e o id :
   target e = Some id -> nth_error (mo_ctxs mo) id = None -> mon_step c mo e o = mo.
 Proof.
-  destruct e; cbn [target]; try discriminate; intros [= ->] Hm; unfold mon_step;
-    cbn [target tl_step]; rewrite Hm; destruct mo; reflexivity.
+  destruct e; cbn [target]; try discriminate; intros [= ->] Hm; unfold mon_step, ctxs_step, tmrs_step;
+    cbn [target ttarget tl_step]; rewrite Hm; destruct mo; reflexivity.
 Qed.
 
 Lemma R_update c s mo id x' m' :
-  R c s mo -> ctx_rel c (s_now s) (tl_uns (mo_tl mo)) x' m' ->
-  R c (set_ctxs s (set_nth id x' (s_ctxs s))) (mkMon (mo_tl mo) (set_nth id m' (mo_ctxs mo))).
+  Rc c s mo -> ctx_rel c (s_now s) (tl_uns (mo_tl mo)) x' m' ->
+  Rc c (set_ctxs s (set_nth id x' (s_ctxs s))) (mkMon (mo_tl mo) (set_nth id m' (mo_ctxs mo)) (mo_tmrs mo)).
 Proof.
   intros [Ha Hf] Hr. split.
   - cbn [mo_tl]. eapply acct_clock_of; [|exact Ha]. reflexivity.
@@ -295,8 +295,8 @@ Proof.
 Qed.
 
 Lemma R_update_mon c s mo id x m' :
-  R c s mo -> nth_error (s_ctxs s) id = Some x -> ctx_rel c (s_now s) (tl_uns (mo_tl mo)) x m' ->
-  R c s (mkMon (mo_tl mo) (set_nth id m' (mo_ctxs mo))).
+  Rc c s mo -> nth_error (s_ctxs s) id = Some x -> ctx_rel c (s_now s) (tl_uns (mo_tl mo)) x m' ->
+  Rc c s (mkMon (mo_tl mo) (set_nth id m' (mo_ctxs mo)) (mo_tmrs mo)).
 Proof.
   intros [Ha Hf] Hx Hr. split; [exact Ha|]. cbn [mo_ctxs mo_tl].
   rewrite <- (set_nth_same _ _ _ Hx). apply Forall2_set_nth; assumption.
@@ -311,7 +311,7 @@ Ltac rel_fields :=
 Ltac disj := solve [lia | congruence | assumption | left; disj | right; disj].
 Ltac fin := repeat split; auto; try congruence; try lia; try disj.
 
-Lemma step_arm c s mo id : R c s mo -> step_good c s mo (Arm id).
+Lemma step_arm c s mo id : Rc c s mo -> step_good c s mo (Arm id).
 Proof.
   intros HR. pose proof HR as [Ha Hf]. unfold step_good. cbn [step]. unfold do_arm.
   destruct (nth_error (s_ctxs s) id) as [x|] eqn:Hx.
@@ -350,7 +350,7 @@ Proof.
     rewrite (mon_step_target_none c mo (Arm id) _ id eq_refl Hm). split; [reflexivity|exact HR].
 Qed.
 
-Lemma step_fire c s mo id tf : R c s mo -> step_good c s mo (Fire id tf).
+Lemma step_fire c s mo id tf : Rc c s mo -> step_good c s mo (Fire id tf).
 Proof.
   intros HR. pose proof HR as [Ha Hf]. unfold step_good. cbn [step]. unfold do_fire.
   destruct (nth_error (s_ctxs s) id) as [x|] eqn:Hx.
@@ -359,7 +359,7 @@ Proof.
     rewrite (mon_step_target c mo (Fire id tf) _ id m eq_refl Hm).
     destruct Hr as (H1 & H2 & H3 & H4 & H5 & H6 & H7 & H8 & Hrk & H9).
     assert (Hquiet : p_quiet (note_event c (mo_tl mo) m (Fire id tf)) = "" /\
-                     R c s (mkMon (mo_tl mo) (set_nth id (note_out (note_event c (mo_tl mo) m (Fire id tf)) ONone) (mo_ctxs mo)))).
+                     Rc c s (mkMon (mo_tl mo) (set_nth id (note_out (note_event c (mo_tl mo) m (Fire id tf)) ONone) (mo_ctxs mo)) (mo_tmrs mo))).
     { split.
       - unfold p_quiet. rel_fields. destruct (x_phase x) as [d'|dl|].
         + destruct H9 as (-> & -> & _). reflexivity.
@@ -385,14 +385,14 @@ Qed.
 
 (* Cancel and BaseExpire share base_stop *)
 Lemma step_base_stop c s mo id x m e ev :
-  R c s mo -> nth_error (s_ctxs s) id = Some x -> nth_error (mo_ctxs mo) id = Some m ->
+  Rc c s mo -> nth_error (s_ctxs s) id = Some x -> nth_error (mo_ctxs mo) id = Some m ->
   ctx_rel c (s_now s) (tl_uns (mo_tl mo)) x m ->
   (ev = Cancel id /\ e = ECanceled \/ ev = BaseExpire id /\ e = EDeadline /\ x_basedl x <= s_now s) ->
   let r := base_stop s id x e in
   ((exists er dur, snd r = ODone er dur /\
       p_done c (mo_tl mo) (note_event c (mo_tl mo) m ev) None er dur = "") \/
    (snd r = ONone /\ p_quiet (note_event c (mo_tl mo) m ev) = "")) /\
-  R c (fst r) (mkMon (mo_tl mo) (set_nth id (note_out (note_event c (mo_tl mo) m ev) (snd r)) (mo_ctxs mo))).
+  Rc c (fst r) (mkMon (mo_tl mo) (set_nth id (note_out (note_event c (mo_tl mo) m ev) (snd r)) (mo_ctxs mo)) (mo_tmrs mo)).
 Proof.
   intros HR Hx Hm Hr Hev. pose proof HR as [Ha Hf].
   destruct Hr as (H1 & H2 & H3 & H4 & H5 & H6 & H7 & H8 & Hrk & H9).
@@ -430,7 +430,7 @@ Proof.
         destruct (x_berr x) eqn:He; fin; rewrite ?Hexp, ?Bool.orb_true_r; fin.
 Qed.
 
-Lemma step_cancel c s mo id : R c s mo -> step_good c s mo (Cancel id).
+Lemma step_cancel c s mo id : Rc c s mo -> step_good c s mo (Cancel id).
 Proof.
   intros HR. pose proof HR as [Ha Hf]. unfold step_good. cbn [step]. unfold do_cancel.
   destruct (nth_error (s_ctxs s) id) as [x|] eqn:Hx.
@@ -444,7 +444,7 @@ Proof.
     rewrite (mon_step_target_none c mo (Cancel id) _ id eq_refl Hm). split; [reflexivity|exact HR].
 Qed.
 
-Lemma step_expire c s mo id : R c s mo -> step_good c s mo (BaseExpire id).
+Lemma step_expire c s mo id : Rc c s mo -> step_good c s mo (BaseExpire id).
 Proof.
   intros HR. pose proof HR as [Ha Hf]. unfold step_good. cbn [step]. unfold do_expire.
   destruct (nth_error (s_ctxs s) id) as [x|] eqn:Hx.
@@ -476,7 +476,7 @@ Lemma Forall2_snoc {A B} (P : A -> B -> Prop) l1 l2 a b :
   Forall2 P l1 l2 -> P a b -> Forall2 P (l1 ++ [a]) (l2 ++ [b]).
 Proof. intros H Hab. apply Forall2_app; [exact H|]. constructor; [exact Hab|constructor]. Qed.
 
-Lemma step_newctx c s mo d : R c s mo -> step_good c s mo (NewCtx d).
+Lemma step_newctx c s mo d : Rc c s mo -> step_good c s mo (NewCtx d).
 Proof.
   intros [Ha Hf]. unfold step_good. cbn [step]. unfold do_newctx. cbn [fst snd]. split.
   - cbn [p_step]. rewrite !Z.eqb_refl. reflexivity.
@@ -517,38 +517,304 @@ Proof.
   destruct e; cbn [tl_step tl_uns]; try lia. destruct (Nat.eqb (tl_cnt t) 0); lia.
 Qed.
 
-Lemma step_other c s mo e :
-  target e = None -> (forall d, e <> NewCtx d) -> R c s mo -> step_good c s mo e.
+(* events that are not about a context leave the context part of the relation alone *)
+Lemma other_Rc c s mo e o :
+  target e = None -> (forall d, e <> NewCtx d) -> Rc c s mo ->
+  Rc c (fst (step c s e)) (mon_step c mo e o).
 Proof.
-  intros Ht Hn [Ha Hf]. unfold step_good. split.
-  - destruct e; try discriminate; try reflexivity.
-    + exfalso. eapply Hn. reflexivity.
-  - destruct (step_other_frame c s e Ht Hn) as [Hc Hnow].
-    assert (Hmon : mon_step c mo e (snd (step c s e)) = mkMon (tl_step (mo_tl mo) e) (mo_ctxs mo)).
-    { unfold mon_step. rewrite Ht. destruct e; try reflexivity. exfalso. eapply Hn. reflexivity. }
-    rewrite Hmon. split.
-    + cbn [mo_tl]. apply acct_step. exact Ha.
-    + rewrite Hc. cbn [mo_ctxs mo_tl]. eapply Forall2_impl; [|exact Hf].
-      intros a b. apply ctx_rel_mono; [exact Hnow|apply tl_uns_mono].
+  intros Ht Hn [Ha Hf].
+  destruct (step_other_frame c s e Ht Hn) as [Hc Hnow].
+  unfold mon_step, Rc. cbn [mo_tl mo_ctxs]. split.
+  - apply acct_step. exact Ha.
+  - assert (Hcs : ctxs_step c (mo_tl mo) (mo_ctxs mo) e o = mo_ctxs mo).
+    { unfold ctxs_step. rewrite Ht. destruct e; try reflexivity. exfalso. eapply Hn. reflexivity. }
+    rewrite Hcs, Hc. eapply Forall2_impl; [|exact Hf].
+    intros a b. apply ctx_rel_mono; [exact Hnow|apply tl_uns_mono].
 Qed.
 
-Lemma step_ok c s mo e : R c s mo -> step_good c s mo e.
+Lemma ctx_step_Rc c s mo e : Rc c s mo -> Rc c (fst (step c s e)) (mon_step c mo e (snd (step c s e))).
 Proof.
-  intros HR. destruct e.
-  - apply step_other; [reflexivity|discriminate|exact HR].
-  - apply step_other; [reflexivity|discriminate|exact HR].
-  - apply step_other; [reflexivity|discriminate|exact HR].
+  intros HR. destruct e;
+    try (apply other_Rc; [reflexivity|discriminate|exact HR]).
   - apply step_newctx, HR.
   - apply step_arm, HR.
   - apply step_fire, HR.
   - apply step_cancel, HR.
   - apply step_expire, HR.
-  - apply step_other; [reflexivity|discriminate|exact HR].
-  - apply step_other; [reflexivity|discriminate|exact HR].
-  - apply step_other; [reflexivity|discriminate|exact HR].
-  - apply step_other; [reflexivity|discriminate|exact HR].
-  - apply step_other; [reflexivity|discriminate|exact HR].
-  - apply step_other; [reflexivity|discriminate|exact HR].
+Qed.
+
+Lemma ctx_step_p c s mo e :
+  Rc c s mo -> (exists id, target e = Some id) \/ (exists d, e = NewCtx d) ->
+  p_step c mo e (snd (step c s e)) = "".
+Proof.
+  intros HR [[id Ht]|[d ->]].
+  - destruct e; try discriminate.
+    + apply step_arm, HR.
+    + apply step_fire, HR.
+    + apply step_cancel, HR.
+    + apply step_expire, HR.
+  - apply step_newctx, HR.
+Qed.
+
+(* ---- timers: the same simulation ---------------------------------------------------------------- *)
+
+Definition tmr_rel (c : cfg) (now : Z) (t : tmro) (m : mtmr) : Prop :=
+  t_final t = mt_U0 m + mt_d m /\ t_maxdl t = mt_T0 m + mt_d m + maxSusp c /\
+  mt_T0 m <= now /\
+  t_open t = negb (mt_stopped m || mt_delivered m) /\ t_stopreq t = mt_stopped m /\
+  match t_phase t with
+  | TArming d' =>
+    mt_parked m = true /\ mt_delivered m = false /\
+    mt_T0 m + mt_d m + Z.of_nat (mt_rearms m) * thr c <= now + d'
+  | TArmed dl =>
+    mt_parked m = false /\ mt_delivered m = false /\ mt_stopped m = false /\
+    mt_T0 m + mt_d m + Z.of_nat (mt_rearms m) * thr c <= dl
+  | TFinished => mt_parked m = false /\ (mt_stopped m = true \/ mt_delivered m = true)
+  end.
+
+Definition Rt (c : cfg) (s : state) (mo : mon) : Prop :=
+  Forall2 (tmr_rel c (s_now s)) (s_tmrs s) (mo_tmrs mo).
+
+Definition R (c : cfg) (s : state) (mo : mon) : Prop := Rc c s mo /\ Rt c s mo.
+
+Lemma tmr_rel_mono c now now' t m : now <= now' -> tmr_rel c now t m -> tmr_rel c now' t m.
+Proof.
+  unfold tmr_rel. intros Hle (H1 & H2 & H3 & H4 & H5 & H9).
+  repeat (split; [first [assumption | lia]|]).
+  destruct (t_phase t); [|exact H9|exact H9].
+  destruct H9 as (Ha & Hb & Hc). repeat split; auto. lia.
+Qed.
+
+Lemma R_init c : R c init mon0.
+Proof. split; [apply Rc_init|constructor]. Qed.
+
+Definition is_timer_event (e : event) : bool :=
+  match e with TNew _ | TArm _ | TFire _ _ | TMaxFire _ _ | TStop _ => true | _ => false end.
+
+Lemma tmrs_frame c s e :
+  is_timer_event e = false ->
+  s_tmrs (fst (step c s e)) = s_tmrs s /\ s_now s <= s_now (fst (step c s e)).
+Proof.
+  assert (Hrefl : s_tmrs s = s_tmrs s /\ s_now s <= s_now s) by (split; [reflexivity|lia]).
+  intros Ht. destruct e; try discriminate; cbn [step fst].
+  - split; [reflexivity|]. cbn [do_advance s_now]. lia.
+  - exact Hrefl.
+  - unfold do_resume. destruct (s_cnt s); exact Hrefl.
+  - exact Hrefl.
+  - unfold do_arm, base_done. destruct (nth_error (s_ctxs s) id) as [x|]; [|exact Hrefl].
+    destruct (x_phase x); [|exact Hrefl..]. destruct (x_berr x); exact Hrefl.
+  - unfold do_fire. destruct (nth_error (s_ctxs s) id) as [x|]; [|exact Hrefl].
+    destruct (x_phase x) as [d|dl|]; [exact Hrefl| |exact Hrefl].
+    destruct ((dl <=? tf) && (tf <=? s_now s)); [|exact Hrefl].
+    destruct (x_final x - total_at s tf <? thr c); exact Hrefl.
+  - unfold do_cancel, base_stop, base_done. destruct (nth_error (s_ctxs s) id) as [x|]; [|exact Hrefl].
+    destruct (x_phase x); exact Hrefl.
+  - unfold do_expire, base_stop, base_done. destruct (nth_error (s_ctxs s) id) as [x|]; [|exact Hrefl].
+    destruct (x_basedl x <=? s_now s); [|exact Hrefl]. destruct (x_phase x); exact Hrefl.
+  - unfold do_storage, do_resume, do_advance, do_suspend. cbn [s_cnt fst s_tmrs s_now]. split; [reflexivity|lia].
+Qed.
+
+Lemma other_Rt c s mo e o :
+  is_timer_event e = false -> Rt c s mo -> Rt c (fst (step c s e)) (mon_step c mo e o).
+Proof.
+  intros Ht Hf. destruct (tmrs_frame c s e Ht) as [Hc Hnow].
+  unfold Rt, mon_step. cbn [mo_tmrs].
+  assert (Hts : tmrs_step (mo_tl mo) (mo_tmrs mo) e o = mo_tmrs mo).
+  { unfold tmrs_step. destruct e; try discriminate; reflexivity. }
+  rewrite Hts, Hc. eapply Forall2_impl; [|exact Hf]. intros a b. apply tmr_rel_mono. exact Hnow.
+Qed.
+
+Definition tstep_good c s mo e :=
+  p_step c mo e (snd (step c s e)) = "" /\
+  Rt c (fst (step c s e)) (mon_step c mo e (snd (step c s e))).
+
+Ltac trel_cbn :=
+  cbn [tnote with_tphase finished_closed t_final t_maxdl t_open t_stopreq t_phase
+       mt_birth mt_parked mt_stopped mt_delivered mt_rearms].
+Ltac trel_fields := trel_cbn; unfold mt_T0, mt_U0, mt_d in *; trel_cbn.
+
+Lemma Rt_set c s mo id t' m' :
+  Rt c s mo -> tmr_rel c (s_now s) t' m' ->
+  Rt c (set_tmrs s (set_nth id t' (s_tmrs s)))
+       (mkMon (mo_tl mo) (mo_ctxs mo) (set_nth id m' (mo_tmrs mo))).
+Proof.
+  intros Hf Hr. unfold Rt. cbn [set_tmrs s_now s_tmrs mo_tmrs]. apply Forall2_set_nth; assumption.
+Qed.
+
+Lemma Rt_same c s mo id t m' :
+  Rt c s mo -> nth_error (s_tmrs s) id = Some t -> tmr_rel c (s_now s) t m' ->
+  Rt c s (mkMon (mo_tl mo) (mo_ctxs mo) (set_nth id m' (mo_tmrs mo))).
+Proof.
+  intros Hf Hx Hr. unfold Rt. cbn [mo_tmrs].
+  rewrite <- (set_nth_same _ _ _ Hx). apply Forall2_set_nth; assumption.
+Qed.
+
+Lemma mon_step_ttarget c mo e o id m :
+  ttarget e = Some id -> nth_error (mo_tmrs mo) id = Some m ->
+  mon_step c mo e o = mkMon (mo_tl mo) (mo_ctxs mo) (set_nth id (tnote m e o) (mo_tmrs mo)).
+Proof.
+  destruct e; cbn [ttarget]; try discriminate; intros [= ->] Hm; unfold mon_step, ctxs_step, tmrs_step;
+    cbn [target ttarget tl_step]; rewrite Hm; destruct mo; reflexivity.
+Qed.
+
+Lemma mon_step_ttarget_none c mo e o id :
+  ttarget e = Some id -> nth_error (mo_tmrs mo) id = None -> mon_step c mo e o = mo.
+Proof.
+  destruct e; cbn [ttarget]; try discriminate; intros [= ->] Hm; unfold mon_step, ctxs_step, tmrs_step;
+    cbn [target ttarget tl_step]; rewrite Hm; destruct mo; reflexivity.
+Qed.
+
+Lemma step_tarm c s mo id : acct s (mo_tl mo) -> Rt c s mo -> tstep_good c s mo (TArm id).
+Proof.
+  intros Ha Hf. unfold tstep_good. cbn [step]. unfold do_tarm.
+  destruct (nth_error (s_tmrs s) id) as [t|] eqn:Hx.
+  - destruct (Forall2_nth _ _ _ _ _ Hf Hx) as (m & Hm & Hr).
+    cbn [p_step]. rewrite Hm.
+    rewrite (mon_step_ttarget c mo (TArm id) _ id m eq_refl Hm).
+    destruct Hr as (H1 & H2 & H3 & H4 & H5 & H9).
+    destruct (t_phase t) as [d'|dl|] eqn:Hp.
+    + destruct H9 as (Hpk & Hdl & Hk).
+      destruct (t_stopreq t) eqn:Hs; cbn [fst snd].
+      * split.
+        -- cbn [p_tstep]. rewrite <- H5. reflexivity.
+        -- apply Rt_set; [exact Hf|]. unfold tmr_rel. trel_fields. rewrite ?Hp. fin.
+      * split.
+        -- cbn [p_tstep]. rewrite <- H5. reflexivity.
+        -- apply Rt_set; [exact Hf|]. unfold tmr_rel. trel_fields. rewrite ?Hp. fin.
+    + destruct H9 as (Hpk & Hdl & Hst & Hk). cbn [fst snd]. split.
+      * cbn [p_tstep]. rewrite Hst. reflexivity.
+      * apply (Rt_same _ _ _ _ t); [exact Hf|exact Hx|]. unfold tmr_rel. trel_fields. rewrite ?Hp. fin.
+    + destruct H9 as (Hpk & Hend). cbn [fst snd]. split.
+      * cbn [p_tstep]. rewrite Hpk, Bool.andb_false_r. reflexivity.
+      * apply (Rt_same _ _ _ _ t); [exact Hf|exact Hx|]. unfold tmr_rel. trel_fields. rewrite ?Hp. fin.
+  - pose proof (Forall2_nth_none _ _ _ _ Hf Hx) as Hm. cbn [p_step fst snd]. rewrite Hm.
+    rewrite (mon_step_ttarget_none c mo (TArm id) _ id eq_refl Hm). split; [reflexivity|exact Hf].
+Qed.
+
+Lemma p_trearm_ok c t m tf d' :
+  mt_delivered m = false -> mt_stopped m = false -> thr c <= d' ->
+  mt_d m - (tl_uns t - mt_U0 m) <= d' -> d' <= mt_d m - (tl_uns t - mt_U0 m) + (tl_now t - tf) ->
+  Z.of_nat (mt_rearms m) * thr c <= tl_now t - mt_T0 m - mt_d m ->
+  p_trearm c t m tf d' = "".
+Proof.
+  intros Hd Hs H1 H2 H3 H4. unfold p_trearm. rewrite Hd, Hs. cbn [orb].
+  destruct (d' <? thr c) eqn:E1; [lia|].
+  destruct ((mt_d m - (tl_uns t - mt_U0 m) <=? d') && (d' <=? mt_d m - (tl_uns t - mt_U0 m) + (tl_now t - tf))) eqn:E2; [|lia].
+  cbn [negb].
+  destruct (Z.of_nat (mt_rearms m) * thr c <=? tl_now t - mt_T0 m - mt_d m) eqn:E3; [reflexivity|lia].
+Qed.
+
+Lemma step_tfire c s mo id tf : acct s (mo_tl mo) -> Rt c s mo -> tstep_good c s mo (TFire id tf).
+Proof.
+  intros Ha Hf. unfold tstep_good. cbn [step]. unfold do_tfire.
+  destruct (nth_error (s_tmrs s) id) as [t|] eqn:Hx.
+  - destruct (Forall2_nth _ _ _ _ _ Hf Hx) as (m & Hm & Hr).
+    cbn [p_step]. rewrite Hm.
+    rewrite (mon_step_ttarget c mo (TFire id tf) _ id m eq_refl Hm).
+    assert (Hquiet : p_tstep c (mo_tl mo) m (TFire id tf) ONone = "" /\
+                     Rt c s (mkMon (mo_tl mo) (mo_ctxs mo) (set_nth id (tnote m (TFire id tf) ONone) (mo_tmrs mo)))).
+    { split; [reflexivity|]. apply (Rt_same _ _ _ _ t); [exact Hf|exact Hx|].
+      destruct m. exact Hr. }
+    destruct Hr as (H1 & H2 & H3 & H4 & H5 & H9).
+    destruct (t_phase t) as [d'|dl|] eqn:Hp; [exact Hquiet| |exact Hquiet].
+    destruct ((dl <=? tf) && (tf <=? s_now s)) eqn:Een; [|exact Hquiet].
+    clear Hquiet. destruct H9 as (Hpk & Hdl & Hst & Hk).
+    pose proof (total_at_bounds s (mo_tl mo) tf Ha ltac:(lia)) as Hb.
+    destruct Ha as (Ha1 & Ha2 & Ha3 & Ha4).
+    destruct (t_final t - total_at s tf <? thr c) eqn:Ethr; cbn [fst snd].
+    + split.
+      * cbn [p_tstep]. unfold p_tdeliver. rewrite Hdl, Hst, Z.eqb_refl. cbn [negb].
+        unfold mt_U0, mt_d in *.
+        destruct (b_d (mt_birth m) - thr c <? tl_uns (mo_tl mo) - b_U0 (mt_birth m)) eqn:E; [reflexivity|lia].
+      * apply Rt_set; [exact Hf|]. unfold tmr_rel. trel_fields. rewrite ?Hst, ?Hdl. fin.
+    + split.
+      * cbn [p_tstep]. apply p_trearm_ok; trel_fields; fin.
+      * apply Rt_set; [exact Hf|]. unfold tmr_rel. trel_fields. rewrite ?Hp. fin.
+  - pose proof (Forall2_nth_none _ _ _ _ Hf Hx) as Hm. cbn [p_step fst snd]. rewrite Hm.
+    rewrite (mon_step_ttarget_none c mo (TFire id tf) _ id eq_refl Hm). split; [reflexivity|exact Hf].
+Qed.
+
+Lemma step_tmaxfire c s mo id tf : acct s (mo_tl mo) -> Rt c s mo -> tstep_good c s mo (TMaxFire id tf).
+Proof.
+  intros Ha Hf. unfold tstep_good. cbn [step]. unfold do_tmaxfire.
+  destruct (nth_error (s_tmrs s) id) as [t|] eqn:Hx.
+  - destruct (Forall2_nth _ _ _ _ _ Hf Hx) as (m & Hm & Hr).
+    cbn [p_step]. rewrite Hm.
+    rewrite (mon_step_ttarget c mo (TMaxFire id tf) _ id m eq_refl Hm).
+    assert (Hquiet : p_tstep c (mo_tl mo) m (TMaxFire id tf) ONone = "" /\
+                     Rt c s (mkMon (mo_tl mo) (mo_ctxs mo) (set_nth id (tnote m (TMaxFire id tf) ONone) (mo_tmrs mo)))).
+    { split; [reflexivity|]. apply (Rt_same _ _ _ _ t); [exact Hf|exact Hx|].
+      destruct m. exact Hr. }
+    destruct Hr as (H1 & H2 & H3 & H4 & H5 & H9).
+    destruct (t_phase t) as [d'|dl|] eqn:Hp; [exact Hquiet| |exact Hquiet].
+    destruct ((t_maxdl t <=? tf) && (tf <=? s_now s)) eqn:Een; [|exact Hquiet].
+    clear Hquiet. destruct H9 as (Hpk & Hdl & Hst & Hk).
+    destruct Ha as (Ha1 & Ha2 & Ha3 & Ha4). cbn [fst snd]. split.
+    + cbn [p_tstep]. unfold p_tdeliver. rewrite Hdl, Hst, Z.eqb_refl. cbn [negb].
+      unfold mt_T0, mt_d in *.
+      destruct (b_T0 (mt_birth m) + b_d (mt_birth m) + maxSusp c <=? tl_now (mo_tl mo)) eqn:E; [reflexivity|lia].
+    + apply Rt_set; [exact Hf|]. unfold tmr_rel. trel_fields. rewrite ?Hst, ?Hdl. fin.
+  - pose proof (Forall2_nth_none _ _ _ _ Hf Hx) as Hm. cbn [p_step fst snd]. rewrite Hm.
+    rewrite (mon_step_ttarget_none c mo (TMaxFire id tf) _ id eq_refl Hm). split; [reflexivity|exact Hf].
+Qed.
+
+Lemma step_tstop c s mo id : acct s (mo_tl mo) -> Rt c s mo -> tstep_good c s mo (TStop id).
+Proof.
+  intros Ha Hf. unfold tstep_good. cbn [step]. unfold do_tstop.
+  destruct (nth_error (s_tmrs s) id) as [t|] eqn:Hx.
+  - destruct (Forall2_nth _ _ _ _ _ Hf Hx) as (m & Hm & Hr).
+    cbn [p_step]. rewrite Hm.
+    rewrite (mon_step_ttarget c mo (TStop id) _ id m eq_refl Hm).
+    pose proof Hr as (H1 & H2 & H3 & H4 & H5 & H9).
+    destruct (t_open t) eqn:Hop.
+    + assert (Hsd : mt_stopped m = false /\ mt_delivered m = false) by (destruct (mt_stopped m), (mt_delivered m); cbn in H4; auto; discriminate).
+      destruct Hsd as [Hst Hdl].
+      destruct (t_phase t) as [d'|dl|] eqn:Hp; cbn [fst snd].
+      * destruct H9 as (Hpk & _ & Hk). split.
+        -- cbn [p_tstep]. rewrite Hst, Hdl, Hpk. reflexivity.
+        -- apply Rt_set; [exact Hf|]. unfold tmr_rel. trel_fields. rewrite ?Hdl. fin.
+      * destruct H9 as (Hpk & _ & _ & Hk). split.
+        -- cbn [p_tstep]. rewrite Hst, Hdl, Hpk. reflexivity.
+        -- apply Rt_set; [exact Hf|]. unfold tmr_rel. trel_fields. rewrite ?Hdl. fin.
+      * destruct H9 as (_ & [Hc|Hc]); congruence.
+    + cbn [fst snd].
+      assert (Hsd : mt_stopped m || mt_delivered m = true) by (destruct (mt_stopped m || mt_delivered m); cbn in H4; congruence).
+      split.
+      * cbn [p_tstep]. rewrite Hsd. reflexivity.
+      * apply (Rt_same _ _ _ _ t); [exact Hf|exact Hx|]. destruct m. exact Hr.
+  - pose proof (Forall2_nth_none _ _ _ _ Hf Hx) as Hm. cbn [p_step fst snd]. rewrite Hm.
+    rewrite (mon_step_ttarget_none c mo (TStop id) _ id eq_refl Hm). split; [reflexivity|exact Hf].
+Qed.
+
+Lemma step_tnew c s mo d : acct s (mo_tl mo) -> Rt c s mo -> tstep_good c s mo (TNew d).
+Proof.
+  intros Ha Hf. unfold tstep_good. cbn [step]. unfold do_tnew. cbn [fst snd]. split.
+  - cbn [p_step]. rewrite !Z.eqb_refl. reflexivity.
+  - unfold Rt, mon_step, tmrs_step. cbn [set_tmrs s_now s_tmrs mo_tmrs].
+    apply Forall2_snoc; [exact Hf|].
+    destruct Ha as (Ha1 & Ha2 & Ha3 & Ha4).
+    unfold tmr_rel. trel_fields. cbn [b_T0 b_U0 b_d]. fin.
+Qed.
+
+Lemma step_ok c s mo e : R c s mo -> p_step c mo e (snd (step c s e)) = "" /\ R c (fst (step c s e)) (mon_step c mo e (snd (step c s e))).
+Proof.
+  intros [HRc HRt]. pose proof HRc as [Ha _].
+  pose proof (ctx_step_Rc c s mo e HRc) as HRc'.
+  destruct e.
+  - split; [reflexivity|]. split; [exact HRc'|]. apply other_Rt; [reflexivity|exact HRt].
+  - split; [reflexivity|]. split; [exact HRc'|]. apply other_Rt; [reflexivity|exact HRt].
+  - split; [reflexivity|]. split; [exact HRc'|]. apply other_Rt; [reflexivity|exact HRt].
+  - split; [apply ctx_step_p; [exact HRc|right; eexists; reflexivity]|]. split; [exact HRc'|]. apply other_Rt; [reflexivity|exact HRt].
+  - split; [apply ctx_step_p; [exact HRc|left; eexists; reflexivity]|]. split; [exact HRc'|]. apply other_Rt; [reflexivity|exact HRt].
+  - split; [apply ctx_step_p; [exact HRc|left; eexists; reflexivity]|]. split; [exact HRc'|]. apply other_Rt; [reflexivity|exact HRt].
+  - split; [apply ctx_step_p; [exact HRc|left; eexists; reflexivity]|]. split; [exact HRc'|]. apply other_Rt; [reflexivity|exact HRt].
+  - split; [apply ctx_step_p; [exact HRc|left; eexists; reflexivity]|]. split; [exact HRc'|]. apply other_Rt; [reflexivity|exact HRt].
+  - split; [cbn [step snd do_storage p_step]; destruct k; reflexivity|]. split; [exact HRc'|]. apply other_Rt; [reflexivity|exact HRt].
+  - destruct (step_tnew c s mo d Ha HRt) as [Hp Ht]. split; [exact Hp|]. split; assumption.
+  - destruct (step_tarm c s mo id Ha HRt) as [Hp Ht]. split; [exact Hp|]. split; assumption.
+  - destruct (step_tfire c s mo id tf Ha HRt) as [Hp Ht]. split; [exact Hp|]. split; assumption.
+  - destruct (step_tmaxfire c s mo id tf Ha HRt) as [Hp Ht]. split; [exact Hp|]. split; assumption.
+  - destruct (step_tstop c s mo id Ha HRt) as [Hp Ht]. split; [exact Hp|]. split; assumption.
 Qed.
 
 Lemma trace_ok_from_R c evs : forall s mo, R c s mo -> trace_ok_from c mo (trace_from c s evs) = true.
